@@ -189,6 +189,7 @@ M = {
     "p05_ungated_assert_false_for_blank": ("C05", [sub(F5, "    fn hand_rank_value_validated(&self) -> HandRankValue {\n        if !self.is_valid() {", "    fn hand_rank_value_validated(&self) -> HandRankValue {\n        debug_assert!(self.iter().all(|card| card.get_rank_prime() > 1));\n        if !self.is_valid() {")]),
     "p02_six_loop_assert": ("C02", [sub("src/cards/six.rs", "        let mut best_hrv: HandRankValue = 0u16;\n", "        let mut best_hrv: HandRankValue = 0u16;\n        assert!(self.0[5] != crate::CardNumber::DEUCE_CLUBS, \"x\");\n")]),
     "p09_seven_loop_assert": ("C09", [sub("src/cards/seven.rs", "            let hrv = hand.hand_rank_value();\n", "            let hrv = hand.hand_rank_value();\n            debug_assert!(hrv != 1609, \"x\");\n")]),
+    "p06_hand_rank_default_assert": ("C06", [sub("src/cards/mod.rs", "    fn hand_rank(&self) -> crate::hand_rank::HandRank {\n", "    fn hand_rank(&self) -> crate::hand_rank::HandRank {\n        debug_assert!(self.hand_rank_value() != 1600, \"x\");\n")]),
     "p04_unique_any_consumes": ("C04", [sub("src/cards/seven.rs", "        let sorted = self.sort();\n        let mut last: CKCNumber = u32::MAX;\n        for c in sorted.iter() {\n            if *c >= last {\n                return false;\n            }\n            last = *c;\n        }\n        true", "        let mut rest = self.iter();\n        while let Some(card) = rest.next() {\n            if rest.any(|c| c == card) {\n                return false;\n            }\n        }\n        true")]),
 }
 
